@@ -229,3 +229,120 @@ Definition chk_c15 (filesA filesB : list ast) (implA implB plansA plansB : sx)
      | None, _ => true
      | _, None => false
      end) new_methods))].
+
+(* ---- C06 ---- *)
+Require Import Layout spec.Spec_C06.
+
+Definition assumed_of_sx (s : sx) : list assumed :=
+  map (fun x => (sx_str (sx_nth x 0), sx_n (sx_nth x 1),
+                 map (fun f => (sx_str (sx_nth f 0), sx_n (sx_nth f 1))) (sx_list (sx_nth x 2))))
+      (sx_list s).
+
+(* model's own view of the sizes: MIR size of every top-level struct and the verifier's store *)
+Definition model_sizes (mir : list mtop) : list (string * N) :=
+  flat_map (fun t => match t with MTStruct s => [(mname s, mty_size s)] | _ => [] end) mir.
+
+Definition verified_store (md : mode) (files : list ast) : option (list (string * (N * N))) :=
+  match files with
+  | main :: _ =>
+      match gather_files st_empty files with
+      | Ok st => match cycles_pass st main with
+                 | Ok order => match verify_structs md st [] order with Ok s => Some s | _ => None end
+                 | _ => None end
+      | _ => None end
+  | [] => None
+  end.
+
+(* [front agree; class agree; MIR sizes = implementation's sizes; MIR sizes = verifier's sizes;
+    Spec_C06 on the probes of the emitted types] *)
+Definition chk_c06 (files : list ast) (impl sizes : sx) (probes : list probe) : list N :=
+  let o := front Cli Debug files in
+  let m := sx_outcome sx_mir o in
+  match o with
+  | Ok mir =>
+      let asm := assumed_of_sx sizes in
+      let ms := model_sizes mir in
+      [b2n (outcome_agree m impl); b2n (class_agree m impl);
+       b2n (list_eqb (fun a b => String.eqb (fst a) (fst b) && (snd a =? snd b)) ms
+                     (map (fun a => (fst (fst a), snd (fst a))) asm));
+       b2n (match verified_store Debug files with
+            | Some vs => forallb (fun x => match alookup (fst x) vs with
+                                           | Some (sz, _) => sz =? snd x
+                                           | None => false end) ms
+            | None => false end);
+       b2n (spec_c06 asm probes)]
+  | _ => [b2n (outcome_agree m impl); b2n (class_agree m impl); 1; 1; 1]
+  end.
+
+(* validation of Layout.v against the target compilers on arbitrary (also padded) structs:
+   [every probe equals the model's c_struct prediction] *)
+Definition model_layouts (files : list ast) : list probe :=
+  match files with
+  | main :: _ =>
+      match gather_files st_empty files with
+      | Ok st =>
+          match struct_order st [] (flat_map ast_structs files) with
+          | Ok rorder =>
+              let order := rev rorder in
+              (fix go (cstore : list (string * (N * N))) (order : list string) : list probe :=
+                 match order with
+                 | [] => []
+                 | n :: r =>
+                     match struct_lookup st n with
+                     | Some s => match c_struct cstore (s_fields s) with
+                                 | Some (offs, sz, a) => (n, sz, a, offs) :: go ((n, (sz, a)) :: cstore) r
+                                 | None => []
+                                 end
+                     | None => []
+                     end
+                 end) [] order
+          | _ => [] end
+      | _ => [] end
+  | [] => []
+  end.
+
+Definition probe_eqb (a b : probe) : bool :=
+  let '(n1, s1, a1, o1) := a in let '(n2, s2, a2, o2) := b in
+  String.eqb n1 n2 && (s1 =? s2) && (a1 =? a2) && list_eqb N.eqb o1 o2.
+
+(* struct types that reach emitted code through parameters, with the size used for them *)
+Definition param_structs (mir : list mtop) : list (string * N) :=
+  flat_map (fun t => match t with
+     | MTIface top =>
+         flat_map (fun from => flat_map (fun f =>
+             flat_map (fun p => match mp_ty p with
+                                | MStruct n _ => [(n, mty_size (mp_ty p))]
+                                | _ => [] end) (mf_params f))
+           (mnode_funcs (mi_nodes from))) (mi_chain top)
+     | _ => [] end) mir.
+
+Definition verifier_order (files : list ast) : list string :=
+  match files with
+  | main :: _ => match gather_files st_empty files with
+                 | Ok st => match cycles_pass st main with Ok o => o | _ => [] end
+                 | _ => [] end
+  | [] => []
+  end.
+
+(* (struct name, unverified?) for every parameter struct whose probed size differs *)
+Definition bad_param_structs (files : list ast) (probes : list probe) : list (string * bool) :=
+  match front Cli Debug files with
+  | Ok mir =>
+      flat_map (fun ps =>
+        if forallb (fun p => let '(pn, psz, _, _) := p in
+                             negb (String.eqb pn (fst ps)) || (psz =? snd ps)) probes
+        then [] else [(fst ps, negb (mem_str (fst ps) (verifier_order files)))])
+        (param_structs mir)
+  | _ => []
+  end.
+
+(* [Layout.v = raw probes; #model layouts; every struct used as a parameter has the size the
+    target compilers give it (raw probes)] *)
+Definition chk_layout (files : list ast) (probes : list probe) : list N :=
+  let ml := model_layouts files in
+  [b2n (forallb (fun p => existsb (probe_eqb p) ml) probes); N.of_nat (List.length ml);
+   (* parameter structs whose target size differs from the size used for marshalling:
+      outside / inside the class "never seen by the verifier" (not in the dependency order
+      of the main file's structs) *)
+   N.of_nat (List.length (filter (fun x => negb (snd x)) (bad_param_structs files probes)));
+   N.of_nat (List.length (filter (fun x => snd x) (bad_param_structs files probes)))].
